@@ -118,6 +118,9 @@ func runConcChild(args []string) int {
 		return 2
 	}
 	cfg := cfgFromInts(sc.Cfg)
+	if len(args) > 2 && args[2] == "solo" {
+		return runConcSolo(dir, args[1], &sc, cfg)
+	}
 	var rtBufs, stBufs [][]byte
 	for _, f := range sc.RT {
 		c, _ := os.ReadFile(filepath.Join(dir, f))
@@ -219,6 +222,34 @@ func runConcChild(args []string) int {
 	return 0
 }
 
+// solo mode: every input parsed once, alone, in list order, in a process that has parsed nothing else: the reference results
+func runConcSolo(dir, scFile string, sc *concScenario, cfg extCfg) int {
+	sc.RTSolo, sc.RTSoloHash, sc.StSolo = nil, nil, nil
+	for _, f := range sc.RT {
+		b, _ := os.ReadFile(filepath.Join(dir, f))
+		r, err := gtfs.ParseRealtime(b, &gtfs.ParseRealtimeOptions{Timezone: zoneByName(sc.Zone), Extension: extOfKind(sc.ExtKind, cfg)})
+		if err != nil {
+			sc.RTSolo = append(sc.RTSolo, "error")
+			sc.RTSoloHash = append(sc.RTSoloHash, "")
+			continue
+		}
+		sc.RTSolo = append(sc.RTSolo, digest(cRealtime(r)))
+		sc.RTSoloHash = append(sc.RTSoloHash, hashAll(r, false))
+	}
+	for i, f := range sc.Static {
+		b, _ := os.ReadFile(filepath.Join(dir, f))
+		s, err := gtfs.ParseStatic(b, gtfs.ParseStaticOptions{InheritWheelchairBoarding: sc.Inherit[i]})
+		d := "error"
+		if err == nil {
+			d = digest(cStatic(s) + strings.Join(dumpStatic(s), "\n"))
+		}
+		sc.StSolo = append(sc.StSolo, d)
+	}
+	ob, _ := json.Marshal(sc)
+	os.WriteFile(filepath.Join(dir, scFile), ob, 0o644)
+	return 0
+}
+
 func engineConc(ctx *engineCtx) {
 	g := &gen{r: ctx.rng}
 	goroutines, rounds, nScen := 8, 30, 8
@@ -253,6 +284,14 @@ func engineConc(ctx *engineCtx) {
 		for k := 0; k < nIn; k++ {
 			var b []byte
 			switch {
+			case k == 0 && si%2 == 1: // Q: a vehicle position for V1 without a trip, and trip T on its own ...
+				b = marshal(&gtfsrt.FeedMessage{Header: header(1700000000), Entity: []*gtfsrt.FeedEntity{
+					{Id: ptr("q1"), Vehicle: &gtfsrt.VehiclePosition{Vehicle: &gtfsrt.VehicleDescriptor{Id: ptr("V1")}}},
+					{Id: ptr("q2"), TripUpdate: &gtfsrt.TripUpdate{Trip: &gtfsrt.TripDescriptor{TripId: ptr("T-shared")}}}}})
+			case k == nIn-2 && si%2 == 1: // ... P: the same trip T claimed by two vehicle ids (a conflicting feed, parsed by other calls)
+				b = marshal(&gtfsrt.FeedMessage{Header: header(1700000001), Entity: []*gtfsrt.FeedEntity{
+					{Id: ptr("p1"), TripUpdate: &gtfsrt.TripUpdate{Trip: &gtfsrt.TripDescriptor{TripId: ptr("T-shared")}, Vehicle: &gtfsrt.VehicleDescriptor{Id: ptr("V1")}}},
+					{Id: ptr("p2"), TripUpdate: &gtfsrt.TripUpdate{Trip: &gtfsrt.TripDescriptor{TripId: ptr("T-shared")}, Vehicle: &gtfsrt.VehicleDescriptor{Id: ptr("V2")}}}}})
 			case k == nIn-1 && g.coin(0.5):
 				b = []byte{0xff, 0xfe, 0x01, 0x07}
 			case extKind == 2 && (k < 2 || g.coin(0.5)):
@@ -322,6 +361,24 @@ func engineConc(ctx *engineCtx) {
 		sb, _ := json.Marshal(sc)
 		scFile := sc.Name + ".json"
 		os.WriteFile(filepath.Join(tmp, scFile), sb, 0o644)
+		// ---- the reference results, from a process that parses each input once and nothing else ----
+		soloCmd := exec.Command(self, "conc-child", tmp, scFile, "solo")
+		if out, err := runWithTimeout(soloCmd, 5*time.Minute); err != nil {
+			ctx.violate("c18-crash", fmt.Sprintf("the sequential reference run crashed (%v): %s", err, firstLines(string(out), 6)), map[string]any{"scenario": sc})
+			continue
+		}
+		if sb2, err := os.ReadFile(filepath.Join(tmp, scFile)); err == nil {
+			var sc2 concScenario
+			if json.Unmarshal(sb2, &sc2) == nil && len(sc2.RTSolo) == len(sc.RT) {
+				for k := range sc.RTSolo { // this process (which has a history) must agree with the fresh one: otherwise history leaks (C06's business, reported here too)
+					if sc.RTSolo[k] != sc2.RTSolo[k] {
+						ctx.violate("c18-differs-from-sequential", fmt.Sprintf("ParseRealtime(%s) in a process that parsed other inputs before gives %s, alone in a fresh process %s (%s)", sc.RT[k], sc.RTSolo[k], sc2.RTSolo[k], cfg.coq()),
+							map[string]any{"scenario": sc2, "inputs_hex": hexFiles(tmp, sc.RT)})
+					}
+				}
+				sc = sc2
+			}
+		}
 		// ---- the concurrent run, in a child ----
 		raceLog := filepath.Join(tmp, sc.Name+".race")
 		cmd := exec.Command(self, "conc-child", tmp, scFile)
